@@ -127,6 +127,13 @@ def r12_1(ctx, m, schema):
             bad = (p, f"`{qry_var}` is not computed in this iteration")
             break
         rv = defs[ref_var]
+        # X[span] with span = slice(a, b) computed in this iteration reads X[a:b]
+        if isinstance(rv, ast.Subscript) and isinstance(rv.slice, ast.Name) and rv.slice.id in defs:
+            sd = defs[rv.slice.id]
+            if isinstance(sd, ast.Call) and isinstance(sd.func, ast.Name) and sd.func.id == "slice" and len(sd.args) in (2, 3) and not sd.keywords:
+                rv = ast.Subscript(value=rv.value, slice=ast.Slice(lower=sd.args[0], upper=sd.args[1], step=sd.args[2] if len(sd.args) == 3 and const_value(sd.args[2], 1) is not None else None), ctx=ast.Load())
+        elif isinstance(rv, ast.Subscript) and isinstance(rv.slice, ast.Call) and isinstance(rv.slice.func, ast.Name) and rv.slice.func.id == "slice" and len(rv.slice.args) == 2:
+            rv = ast.Subscript(value=rv.value, slice=ast.Slice(lower=rv.slice.args[0], upper=rv.slice.args[1], step=None), ctx=ast.Load())
         ok_ref = isinstance(rv, ast.Subscript) and isinstance(rv.slice, ast.Slice) and norm(rv.slice.lower) == f"{rec}.{P[7]}" and norm(rv.slice.upper) == f"{rec}.{P[8]}" and rv.slice.step is None
         if not ok_ref:
             bad = (p, f"reference slice is `{norm(rv)}`, expected <path sequence>[{rec}.{P[7]}:{rec}.{P[8]}]")
